@@ -74,6 +74,9 @@ def programs(op, a, b):
     }
     if kind == "int":
         forms["compound"] = "c := mut %s; r := (c %s= %s); (r, *c)" % (lit(a), sym, lit(b))
+    # mixed forms: one operand a literal the folder sees, the other known only at run time
+    forms["mixed-rhs-literal"] = "f := (a: int) -> %s { return a %s %s }; f(%s)" % (kind, sym, lit(b), lit(a))
+    forms["mixed-lhs-literal"] = "f := (b: int) -> %s { return %s %s b }; f(%s)" % (kind, lit(a), sym, lit(b))
     return forms
 
 
